@@ -1197,4 +1197,21 @@ def extract_default(
          """    if _param.get("default", False) in none_types:""", """    if isinstance(_param["default"], str):
         _param["default"] = " ".join(map(str.strip, _param["default"].split("\\n")))
     if _param.get("default", False) in none_types:""")]),
+    # ------------------------------------------------------------------ DEFAULT-KIND (C03, C06, C08)
+    dict(id="defaultkind-strip-on-raw-default", kind=B, props=["C03", "C06"], expect="DEFAULT-KIND", edits=[("emit.py",
+         """                "{}".format(intermediate_repr["returns"]["return_type"]["default"]).strip(
+                    "`"
+                )""", """                intermediate_repr["returns"]["return_type"]["default"].strip("`")""")]),
+    dict(id="defaultkind-startswith-on-default", kind=B, props=["C03", "C06"], expect="DEFAULT-KIND", edits=[("ast_utils.py",
+         """    if "default" in _param:
+        if not code_quoted(_param["default"]) or _param["default"][""", """    if "default" in _param:
+        if _param["default"] is not None and _param["default"].startswith("lambda"):
+            pass
+        if not code_quoted(_param["default"]) or _param["default"][""")]),
+    dict(id="defaultkind-isinstance-guard", kind=N, props=["C03", "C06"], expect="silent", edits=[("ast_utils.py",
+         """    if "default" in _param:
+        if not code_quoted(_param["default"]) or _param["default"][""", """    if "default" in _param:
+        if isinstance(_param["default"], str) and _param["default"].startswith("lambda"):
+            pass
+        if not code_quoted(_param["default"]) or _param["default"][""")]),
 ]
